@@ -7,10 +7,14 @@
    expiry covers its shards, nothing stale is scheduled, all scheduled heights are in the
    future at block boundaries) are evaluated as monitors on the implementation's state after
    every step (Model/Monitors.v: ref.completed_scheduled, sched.x clauses); they are not proved as
-   global invariants of the model.
-   Finding D22 (confirmed on the real code, listed in KNOWN_FINDINGS.txt): a force-push
+   global invariants of the model -- with one exception, proved in Proofs/MetaSched.v by induction over
+   the operation list: in every state reachable at heights below 2^63 every data model is listed for
+   removal at exactly the height its lifetime ends (run_meta_scheduled; step_meta_scheduled for one
+   operation, error returns of block phases included), so the model end blocker finds every expiring
+   model in its list (expiring_model_is_listed).
+   Finding D22 (confirmed on the real code and repaired, see KNOWN_FINDINGS.txt): a force-push
    leaves the model with expiry height 0, so the model outlives all of its shards. *)
-From SaoVerif Require Import Base.Prelude Base.Ints Base.Dec Model.Did Model.Types Model.Monad Model.Bank Model.Select Model.Node Model.Storage Model.Sao Model.Hooks Model.App Model.Spec Proofs.Schedule.
+From SaoVerif Require Import Base.Prelude Base.Ints Base.Dec Model.Did Model.Types Model.Monad Model.Bank Model.Select Model.Node Model.Storage Model.Sao Model.Hooks Model.App Model.Spec Proofs.Schedule Proofs.RefInt Proofs.History Proofs.MetaSched.
 From RecordUpdate Require Import RecordUpdate.
 Import RecordSetNotations.
 
@@ -51,3 +55,28 @@ Theorem C11_expired_shard_post : forall cx sid s s' sh o, handle_expired_shard c
   end.
 Proof. first [exact expired_shard_post | apply expired_shard_post]. Qed.
 Print Assumptions C11_expired_shard_post.
+
+(* every data model is listed for removal exactly where its lifetime ends - one operation *)
+Theorem C11_step_meta_scheduled : forall cx s op, height_ok cx -> Inv_msched s -> Inv_msched (fst (step cx s op)).
+Proof. first [exact step_meta_scheduled | apply step_meta_scheduled]. Qed.
+Print Assumptions C11_step_meta_scheduled.
+
+(* ... and every history *)
+Theorem C11_run_meta_scheduled : forall tr s,
+  Forall (fun co : Ctx * Op => height_ok co.1) tr -> Inv_msched s -> Inv_msched (run tr s).
+Proof. first [exact run_meta_scheduled | apply run_meta_scheduled]. Qed.
+Print Assumptions C11_run_meta_scheduled.
+
+Theorem C11_expiring_model_is_listed : forall tr s cx d m,
+  Forall (fun co : Ctx * Op => height_ok co.1) tr -> Inv_msched s ->
+  metas (run tr s) !! d = Some m -> expiry m = cx_height cx ->
+  exists l, expdata (run tr s) !! cx_height cx = Some l /\ In d l.
+Proof. first [exact expiring_model_is_listed | apply expiring_model_is_listed]. Qed.
+Print Assumptions C11_expiring_model_is_listed.
+
+Theorem C11_meta_scheduled_nonvacuous :
+  Inv_msched W.s2 /\ (exists m, metas W.s2 !! W.data = Some m /\ expiry m = 3606 /\ expdata W.s2 !! 3606 = Some [W.data]) /\
+  Forall (fun co : Ctx * Op => height_ok co.1) History.hist_run /\
+  match metas (run History.hist_run W.s2) !! W.data with Some m => expiry m | None => 0 end = 3610.
+Proof. first [exact meta_scheduled_nonvacuous | apply meta_scheduled_nonvacuous]. Qed.
+Print Assumptions C11_meta_scheduled_nonvacuous.
